@@ -49,7 +49,8 @@ def _generate_model_code(
     source: list[str] = []
     # Model components
     variables = model.get_initial_conditions()
-    parameters = model.get_parameter_values()
+    # Copy, otherwise removing the free parameters changes the model's cache
+    parameters = dict(model.get_parameter_values())
 
     if imports is not None:
         source.extend(imports)
